@@ -12,6 +12,9 @@ within the envelope, index ranges = grid lengths, unlisted => spec value exactly
 grid point strictly inside the knot range within (K_d*2^-53 + K_f*2^-24)*Sum|coef|Prod|B| wherever the right-continuous
 basis of grideval and the evaluation convention coincide (PsV.gridSpec == PsV.specEval, decided exactly; by
 grideval_eq_pointwise that is everywhere except at a knot >= knots[naxes] of multiplicity > order, and the check asserts it).
+Concurrent phase: a handful of the generated tables/grids are evaluated again by 6 threads at the same time (C++ member and C entry
+point) and every result is compared bit for bit with the single-threaded one (the model is a pure function); a crash or hang of that
+phase (forked child, alarm) is reported with the tables/grids.
 Index arithmetic: the driver evaluates PsV.sliceIdxSafe / PsV.gridIdxSafe (hypothesis of slicemultiply_int_arith_exact /
 grideval_int_arith_exact: every flattened section has < 2^31 columns) on every case; a case outside it breaks the tie."""
 import json, os, struct, sys
@@ -69,6 +72,7 @@ def run(ctx):
     ncases = 150 if ctx.tier == "quick" else 6000
     modes = ["shipped", "san"]
     evals = 0; nontriv = set(); dist = {}
+    conc = {}
     worst_d = Fraction(0); worst_f = Fraction(0); worst_K = [None]; worst_rel = [Fraction(0)]; kmin = [None]; kmax = [0]
     counts = {"grid_points": 0, "inside_points_compared_pointwise": 0, "convention_differs_points": 0, "unlisted_points": 0,
               "cells_checked_against_proved_envelope": 0, "B_lines": 0, "S_lines": 0, "T_lines": 0, "G_lines": 0, "pointwise_rejected_outside": 0, "idx_safe_cases": 0}
@@ -93,6 +97,25 @@ def run(ctx):
         if not ctx.driver_ok() or not ctx.run_driver("C17", cases, model):
             ctx.tie_ok = False; ctx.broken.append({"kind": "driver failed"}); continue
         if mode == "shipped": dist = json.load(open(stats))
+        # concurrent phase: several grideval calls in flight at the same time on shared const tables vs the single-threaded results
+        try: cj = json.load(open(stats + ".conc"))
+        except Exception as e: cj = {"status": "unreadable", "error": str(e)}
+        conc[mode] = {k: cj.get(k) for k in ("status", "threads", "calls", "tables", "calls_done", "calls_differing", "signal", "exit_code")}
+        if cj.get("status") == "completed":
+            if cj.get("calls_differing", 0) > 0:
+                ctx.report("grideval:concurrent-differs", {"mode": mode, "threads": cj["threads"], "calls": cj["calls_done"], "calls_differing": cj["calls_differing"],
+                                                           "mismatches": cj["mismatches"], "tables_and_grids_case_lines": cj.get("case_lines", []),
+                                                           "replay_cmd": "VERIF_SEED=%d python3 bin/check.py C17 --tier %s" % (ctx.seed, ctx.tier)},
+                           "%d of %d grideval calls made by %d threads at the same time on shared const tables returned a result different from the single-threaded one (first: table %s, %s)"
+                           % (cj["calls_differing"], cj["calls_done"], cj["threads"], cj["mismatches"][0]["table"] if cj["mismatches"] else "?", cj["mismatches"][0]["entry"] if cj["mismatches"] else "?"))
+        elif cj.get("status") in ("crash", "hang"):
+            ctx.report("grideval:concurrent-" + cj["status"], {"mode": mode, "threads": cj.get("threads"), "signal": cj.get("signal"), "exit_code": cj.get("exit_code"),
+                                                              "tables_and_grids_case_lines": cj.get("case_lines", []), "stderr": err[-2000:],
+                                                              "replay_cmd": "VERIF_SEED=%d python3 bin/check.py C17 --tier %s" % (ctx.seed, ctx.tier)},
+                       "the process evaluating %s tables on grids from %s threads at the same time %s (signal %s, exit code %s); every one of these calls succeeds on a single thread"
+                       % (cj.get("tables"), cj.get("threads"), "hung" if cj["status"] == "hang" else "crashed", cj.get("signal"), cj.get("exit_code")))
+        elif cj.get("status") != "no-cases":
+            ctx.tie_ok = False; ctx.broken.append({"kind": "concurrent phase of the harness left no readable result", "mode": mode, "detail": cj})
         with open(cases) as fc, open(impl) as fi, open(model) as fm:
             for ln, (c, i, m) in enumerate(zip(fc, fi, fm), 1):
                 c = c.strip(); i = i.strip(); m = m.strip(); kind = c[:1]
@@ -255,12 +278,14 @@ def run(ctx):
                             "an S case where slicemultiply succeeded and agreed, a B case that agreed bit for bit")
     ctx.coverage["input_distribution"] = dist
     ctx.coverage["counts"] = counts
+    ctx.coverage["concurrent_phase"] = conc
     ctx.coverage["worst_grid_vs_exact_in_units_of_2^-53*mag"] = float(worst_d)
     ctx.coverage["proved_envelope"] = {"theorem": "C17_grideval_rounding_envelope_tie_partial", "K": "Sum_d(5*order_d+1) + ndim + N(cell)",
                                        "K_at_worst_cell": worst_K[0], "K_range_over_checked_cells": [kmin[0], kmax[0]],
                                        "worst_ratio_|impl-exact|/(2^-53*majorant)": float(worst_d), "worst_ratio_over_K": float(worst_rel[0])}
     ctx.coverage["worst_pointwise_vs_exact_in_units_of_2^-24*mag"] = float(worst_f)
     ctx.assumptions += ["rounding envelope of grideval: proved (C17_grideval_rounding_envelope_partial / _tie_partial) for the model run with any roundings of relative error eps: |rounded - exact| <= gfac(eps, K)*majorant at every cell, K = Sum_d(5*order_d+1) + N (+ ndim for the check), majorant = the cell of the same model on |coef| (= Sum|coef|Prod B, printed by the driver, as are N and Sum_d(5*order_d+1)); checked on every compared cell at eps = u/(1-u), u = 2^-53; assumed: no underflow/overflow (standard model), and that CHOLMOD adds the products of a cell up by recursive summation in some order, slice by slice (the model adds them when the cell is read; the + ndim covers the difference, argument at the theorem); pointwise float evaluation adds K_f*2^-24*Sum|coef|Prod|B| with the measured-envelope constant K_f = 4*Sum_d(3*order_d+2) + 2*Prod_d(order_d+1) + 10 (C01 proves its own envelope)",
+                        "concurrency: the model of grideval is a pure function of table and grid, so a result cannot depend on other calls in flight; checked by the harness's concurrent phase (6 threads, C++ member and C entry point, shared const tables, every result compared bit for bit with the single-threaded one, forked child with an alarm) - a test of the schedules that occurred, not a proof of thread safety",
                         "CHOLMOD (ssmult, triplet/sparse conversion) is modelled by its mathematical meaning: equal (row,col) contributions are added, exact zeros of the basis matrix are not stored",
                         "int / unsigned / long index arithmetic of slicemultiply: proved exact (no wrap-around, no zero divisor) whenever the flattened section has < 2^31 columns (slicemultiply_int_arith_exact, grideval_int_arith_exact about the C-typed model PsV.sliceMultiplyC); the decidable hypothesis is evaluated on every generated case; still assumed: the entry counter `int i < a->rows` (needs fewer than 2^31 stored entries) and CHOLMOD's internal index arithmetic",
                         "ownership of the C wrapper's result is released through the C++ type in the harness (ndsparse_destroy deletes through the C base type: C18's finding)"]
